@@ -19,6 +19,24 @@ from vlib.gen.coupled import CoupledSystem, build_disciplines, coupled_systems, 
 
 logging.getLogger("gemseo").setLevel(logging.ERROR)
 
+
+class _Collector(logging.Handler):
+    """Keeps the warnings of the linear solver wrappers (non-convergence is only logged by gemseo)."""
+
+    def __init__(self):
+        super().__init__(logging.WARNING)
+        self.messages = []
+
+    def emit(self, record):
+        self.messages.append(record.getMessage())
+
+
+_LINEAR_SOLVER_LOG = _Collector()
+_logger = logging.getLogger("gemseo.algos.linear_solvers")
+_logger.setLevel(logging.WARNING)
+_logger.propagate = False
+_logger.addHandler(_LINEAR_SOLVER_LOG)
+
 PROPERTY = "C07"
 LEVEL = "exploration"
 RULE = (
@@ -41,7 +59,7 @@ ASSUMPTIONS = [
     "the linearisation point is the MDA solution at tolerance 1e-14 (NO_SCALING): its distance to the exact solution "
     "changes the Jacobian of the mildly non-linear systems by less than 1e-12",
     "tolerances: |block - closed form| <= 1e-9 (1 + max|closed form|) for DEFAULT / LU, 1e-7 (1 + max) for the named Krylov solvers",
-    "a RuntimeError 'breakdown' raised, or NaN returned, by a named Krylov solver (BICGSTAB, BICG, CGS, GCROT, TFQMR, GMRES, LGMRES) is "
+    "a RuntimeError 'breakdown' raised, NaN returned or a non-convergence logged (gemseo then uses the unconverged solution) by a named Krylov solver (BICGSTAB, BICG, CGS, GCROT, TFQMR, GMRES, LGMRES) is "
     "inconclusive for that solver (class 'inconclusive:krylov_breakdown'), CG is not used (needs a symmetric matrix)",
     "LU factorisation is requested with the sparse matrix type only (documented ValueError with linear operators, checked)",
     "MDANewtonRaphson is given all-strongly-coupled systems only (others reach it through MDAChain)",
@@ -258,6 +276,8 @@ def resolve_request(model: CoupledSystem, req: dict, used_x: list) -> tuple[list
 
 def compare(ctx, p, model, tag, jac, expected, in_names, out_names, label):
     tol = 1e-7 if p["solver"] in KRYLOV and not (p["lu"] and p["matrix"] == "matrix") else 1e-9
+    if p["solver"] in KRYLOV and any("did not converge" in m for m in _LINEAR_SOLVER_LOG.messages):
+        raise _KrylovBreakdown  # logged by gemseo, the unconverged solution is used: inconclusive for that solver
     ctx.check(hasattr(jac, "keys"), "shape", f"{tag} {label}: linearize returned {type(jac).__name__}")
     for o in out_names:
         ctx.check(o in jac, "requested_pairs", f"{tag} {label}: requested output {o} is missing from the Jacobian")
@@ -296,6 +316,7 @@ def case_derivatives(p, ctx):
 
 
 def _case_derivatives(p, ctx):
+    del _LINEAR_SOLVER_LOG.messages[:]
     model = CoupledSystem(p["system"])
     info = describe_graph(model)
     values = {k: np.array(v, dtype=float) for k, v in p["values"].items()}
@@ -372,7 +393,7 @@ def _case_derivatives(p, ctx):
             ctx.cls("final:all_pairs")
     except _KrylovBreakdown:
         ctx.cls("inconclusive:krylov_breakdown")
-        ctx.note("NaN returned by a named Krylov solver (unreported breakdown) is counted as inconclusive for that solver")
+        ctx.note("NaN returned by / logged non-convergence of a named Krylov solver is counted as inconclusive for that solver")
         return
     except RuntimeError as exc:
         if p["solver"] in KRYLOV and "breakdown" in str(exc):
